@@ -795,6 +795,11 @@ func (z *zfn) sliceKey(v ssa.Value, d int) string {
 					return z.sliceKey(sts[0].Val, d+1)
 				}
 			}
+			// a field of a local struct that is only ever used through its fields (a literal built here and read
+			// here): the one store to that field that comes before the load
+			if st := localFieldStore(x); st != nil {
+				return z.sliceKey(st.Val, d+1)
+			}
 		}
 	case *ssa.Slice:
 		k := z.vname(x)
@@ -2578,4 +2583,78 @@ func definitelyNonNil(v ssa.Value, at ssa.Instruction) bool {
 		}
 	}
 	return false
+}
+
+// localFieldStore: ld loads field f of a struct variable that lives in this function and is touched only by field
+// stores and field loads — or is filled once, whole, from a composite literal that is (never passed on, copied or
+// address-taken otherwise); exactly one store writes f and it dominates the load: that store.
+func localFieldStore(ld *ssa.UnOp) *ssa.Store {
+	fa, ok := ld.X.(*ssa.FieldAddr)
+	if !ok {
+		return nil
+	}
+	al, ok := fa.X.(*ssa.Alloc)
+	if !ok {
+		return nil
+	}
+	st := fieldStoreOf(al, fa.Field, 0, ld)
+	if st == nil || !dominates(st, ld) {
+		return nil
+	}
+	return st
+}
+
+func fieldStoreOf(al *ssa.Alloc, field int, depth int, at ssa.Instruction) *ssa.Store {
+	if al.Referrers() == nil || depth > 2 {
+		return nil
+	}
+	var stores []*ssa.Store
+	var whole []*ssa.Store
+	wholeLoads := 0
+	for _, r := range *al.Referrers() {
+		switch x := r.(type) {
+		case *ssa.DebugRef:
+		case *ssa.FieldAddr:
+			if x.Referrers() == nil {
+				continue
+			}
+			for _, rr := range *x.Referrers() {
+				switch y := rr.(type) {
+				case *ssa.Store:
+					if y.Addr != ssa.Value(x) {
+						return nil // the field's address is stored somewhere
+					}
+					if x.Field == field {
+						stores = append(stores, y)
+					}
+				case *ssa.UnOp, *ssa.DebugRef:
+				default:
+					return nil
+				}
+			}
+		case *ssa.Store:
+			if x.Addr != ssa.Value(al) {
+				return nil // the variable's address escapes
+			}
+			whole = append(whole, x)
+		case *ssa.UnOp:
+			wholeLoads++ // read as a whole (copied into another variable): harmless for what it holds
+		default:
+			return nil
+		}
+	}
+	switch {
+	case len(whole) == 0 && len(stores) == 1:
+		return stores[0]
+	case len(whole) == 1 && len(stores) == 0:
+		// filled from another local struct
+		if src, ok := whole[0].Val.(*ssa.UnOp); ok && src.Op == token.MUL {
+			if a2, ok := src.X.(*ssa.Alloc); ok {
+				if st := fieldStoreOf(a2, field, depth+1, src); st != nil && dominates(st, src) && dominates(whole[0], at) {
+					return st
+				}
+			}
+		}
+	}
+	return nil
 }
